@@ -95,17 +95,39 @@ def _proof_worker(arg):
 
 
 def _bounded_worker(arg):
-    prop_mod, name, tier, sd = arg
+    prop_mod, name, tier, sd, shard, nshards = arg
     setup_env()
     mod = importlib.import_module(prop_mod)
     fn = dict(mod.bounded_checks())[name]
     t0 = time.time()
     try:
-        rep: BoundedReport = fn(tier, sd)
+        rep: BoundedReport = fn(tier, sd, shard, nshards) if nshards > 1 else fn(tier, sd)
         rep.wall_s = round(time.time() - t0, 2)
         return rep
     except Exception as e:  # noqa: BLE001
         return {"error": f"{name}: {type(e).__name__}: {e}\n{traceback.format_exc()[-3000:]}"}
+
+
+def _merge_shards(reps: list) -> list:
+    out: dict[str, BoundedReport] = {}
+    res = []
+    for r in reps:
+        if isinstance(r, dict):
+            res.append(r)
+            continue
+        if r.name not in out:
+            out[r.name] = r
+            res.append(r)
+        else:
+            m = out[r.name]
+            m.evaluations += r.evaluations
+            m.distinct_nontrivial += r.distinct_nontrivial
+            m.samples += r.samples[:1]
+            m.failures += r.failures
+            m.notes += r.notes
+            m.exhaustive = m.exhaustive and r.exhaustive
+            m.wall_s = max(m.wall_s, r.wall_s)
+    return res
 
 
 # -- known findings ------------------------------------------------------------------------------------------
@@ -159,14 +181,16 @@ def run_property(pid: str, tier: str) -> int:
     # 2. proof rung + bounded evaluation of the same contracts
     items = mod.proof_items()
     ctx = mp.get_context("fork")
-    proof_out = []
-    bounded_out = []
-    with ctx.Pool(ncpu) as pool:
-        pr = pool.map_async(_proof_worker, [(prop_mod, i, tier, sd) for i in range(len(items))], chunksize=1)
-        names = [n for n, _ in mod.bounded_checks()]
-        br = pool.map_async(_bounded_worker, [(prop_mod, n, tier, sd) for n in names], chunksize=1)
-        proof_out = pr.get()
-        bounded_out = br.get()
+    from concurrent.futures import ProcessPoolExecutor  # non-daemonic workers (checks may start Manager processes)
+    names = [n for n, _ in mod.bounded_checks()]
+    with ProcessPoolExecutor(ncpu, mp_context=ctx) as pool:
+        pf = [pool.submit(_proof_worker, (prop_mod, i, tier, sd)) for i in range(len(items))]
+        bf = []
+        for n, chk in mod.bounded_checks():
+            k = max(1, int(getattr(chk, "shards", 1)))
+            bf += [pool.submit(_bounded_worker, (prop_mod, n, tier, sd, sh, k)) for sh in range(k)]
+        proof_out = [f.result() for f in pf]
+        bounded_out = _merge_shards([f.result() for f in bf])
     functions = []
     n_obl = n_dis = 0
     solver_s = 0.0
